@@ -198,6 +198,36 @@ func (fc *fileCtx) ownerExpr(se *ast.SelectorExpr, sel *types.Selection) (ast.Ex
 	return e, false, addressable
 }
 
+// isSyncPkgType: a named type of package sync or sync/atomic (generic instances included)
+func isSyncPkgType(t types.Type) bool {
+	n := namedOf(t)
+	if n == nil || n.Obj() == nil || n.Obj().Pkg() == nil {
+		return false
+	}
+	p := n.Obj().Pkg().Path()
+	return p == "sync" || p == "sync/atomic"
+}
+
+// implicitAddrOfSyncValue: the selection is a method whose declared receiver is a pointer, applied to
+// an operand that is a value (not a pointer) of a type of package sync / sync/atomic
+func implicitAddrOfSyncValue(info *types.Info, sel *types.Selection) bool {
+	fn, ok := sel.Obj().(*types.Func)
+	if !ok {
+		return false
+	}
+	sig, ok := fn.Type().(*types.Signature)
+	if !ok || sig.Recv() == nil {
+		return false
+	}
+	if _, ptrRecv := sig.Recv().Type().(*types.Pointer); !ptrRecv {
+		return false
+	}
+	if _, isPtr := sel.Recv().Underlying().(*types.Pointer); isPtr {
+		return false // a pointer held in the field: the field is loaded
+	}
+	return isSyncPkgType(sel.Recv())
+}
+
 // collect the accesses of the expression tree e (not descending into function literals)
 func (fc *fileCtx) collect(e ast.Node, write map[ast.Expr]bool, out *[]accRef) {
 	if e == nil {
@@ -222,6 +252,15 @@ func (fc *fileCtx) collect(e ast.Node, write map[ast.Expr]bool, out *[]accRef) {
 				return true
 			}
 			if sel.Kind() == types.MethodVal {
+				// x.f.M() with M declared on the pointer and x.f an addressable VALUE of a synchronisation
+				// type (package sync or sync/atomic: atomic.Uint64 / Int64 / Bool / Pointer[T] / Value, Once,
+				// WaitGroup, Map, Pool, Cond …): the call takes &x.f implicitly, the object synchronises
+				// itself — no plain access of the field happens here, and the analyser (SSA: the FieldAddr is
+				// the receiver operand, never loaded) records none; it counts the field as used atomically.
+				// A copy or an assignment of the whole value is still an ordinary read / write.
+				if inner, ok := ast.Unparen(x.X).(*ast.SelectorExpr); ok && implicitAddrOfSyncValue(fc.info, sel) {
+					addrOf[inner] = true
+				}
 				// method call on an object of a package outside the module held in an analysed field
 				// (the LRU cache): counted as a write of that field, as the analyser does
 				if inner, ok := ast.Unparen(x.X).(*ast.SelectorExpr); ok {
